@@ -194,6 +194,20 @@ pub fn run(cx: &mut Cx) {
                 }
             }
         }
+        // ---------------- hostile attribute paths: empty segments, stray dots, signs, huge indices — an answer or an error
+        if len > 0 && case % 8 == 0 {
+            for a in ["", ".", "k.", ".k", "k..k", "t.", "t..1", "0", "-1", "+1", " k", "k ", "t.1.", "99999999999999999999", "t.99999999999999999999", "n.", "n..k", "é", "k.é.", "t.1.0.0"] {
+                let mut c2 = ctx.clone();
+                c2.insert("a", a);
+                for (what, tpl) in [("sort", "{{ xs | sort(attribute=a) | length }}{{ zs | sort(attribute=a) | length }}{{ ys | sort(attribute=a) | length }}"), ("group_by", "{{ xs | group_by(attribute=a) | length }}{{ zs | group_by(attribute=a) | length }}{{ ys | group_by(attribute=a) | length }}")] {
+                    cx.eval();
+                    cx.count("hostile_attribute_paths", 1);
+                    if let Err(p) = guard(|| tera.render_str(tpl, &c2, false).is_ok()) {
+                        cx.violation(&format!("C16/panic/{what}-attribute-path/{}", panic_site(&p)), format!("{what}(attribute={a:?}) panicked: {p}"), json!({"attribute": a, "keys": V::Arr(keys.clone()).tagged()}));
+                    }
+                }
+            }
+        }
         // ---------------- plain sort: same order as the attribute sort of the same keys
         if let Some(r) = render!("sort_plain", &ctx) {
             match (r, &sorted_ids) {
